@@ -398,4 +398,63 @@ Section Tie.
     - repeat split; [left; lra | field; auto | field; auto].
     - repeat split; [right; split; reflexivity | field; auto | field; auto].
   Qed.
+  (* ---------------------------------------------------------------- end-to-end corollaries: the state in which the
+     convergence tests accept a pure-phase row is a valid state of the property (Spec.pp_validR).  The only facts
+     taken from the solver are the bounds it enforces as constraints (amounts stay in [0, initial] etc.). *)
+
+  Corollary converged_pp_row_valid : forall e target si init,
+      row_env e ->
+      e "x.pp_assemblage_comp_ptr.add_formula.size" = 0 ->
+      e "x.dissolve_only" = Q2R c_FALSE ->
+      e "residual" = eden e res_pp_residual ->
+      keeps "converge" res_pp e ->
+      keeps "remove_unstable_phases" chk_pp e ->
+      keeps "called:error_msg" chk_pp e ->
+      e "x.f" = target - si ->
+      0 <= e "x.moles" ->
+      pp_validR KNormal target init (e "x.moles") si.
+  Proof.
+    intros e target si init Hrow Hadd Hdis Hres Hk Hk2 Hk3 Hf Hm.
+    destruct (ok_implies_pp_state e Hrow Hadd Hdis Hres Hk Hk2 Hk3) as [H1 H2].
+    rewrite Hf in *. unfold pp_validR, tolSI in *. split; [exact Hm |]. split.
+    - intro Hp. replace (si - target) with (- (target - si)) by lra. rewrite Rabs_Ropp. apply H1. lra.
+    - intro Hn. split; lra.
+  Qed.
+
+  Corollary converged_dissolve_only_row_valid : forall e target si,
+      row_env e ->
+      e "x.pp_assemblage_comp_ptr.add_formula.size" = 0 ->
+      e "x.dissolve_only" = Q2R c_TRUE ->
+      e "residual" = eden e res_pp_residual ->
+      keeps "converge" res_pp e ->
+      e "x.f" = target - si ->
+      0 <= e "x.moles" <= e "x.pp_assemblage_comp_ptr.initial_moles" ->
+      pp_validR KDissolve target (e "x.pp_assemblage_comp_ptr.initial_moles") (e "x.moles") si.
+  Proof.
+    intros e target si Hrow Hadd Hdis Hres Hk Hf [Hm1 Hm2].
+    destruct (ok_implies_pp_state_dissolve_only e Hrow Hadd Hdis Hres Hk) as [H1 H2].
+    rewrite Hf in *. unfold pp_validR, tolSI in *. repeat split; lra.
+  Qed.
+
+  (* precipitate_only: the solver works on the active amount a (row as for an unrestricted phase); what is
+     reported is a + initial (precipitate_only_inert) *)
+  Corollary converged_precipitate_only_row_valid : forall e target si init,
+      row_env e ->
+      e "x.pp_assemblage_comp_ptr.add_formula.size" = 0 ->
+      e "x.dissolve_only" = Q2R c_FALSE ->
+      e "residual" = eden e res_pp_residual ->
+      keeps "converge" res_pp e ->
+      keeps "remove_unstable_phases" chk_pp e ->
+      keeps "called:error_msg" chk_pp e ->
+      e "x.f" = target - si ->
+      0 <= e "x.moles" -> 0 <= init ->
+      pp_validR KPrecip target init (e "x.moles" + init) si.
+  Proof.
+    intros e target si init Hrow Hadd Hdis Hres Hk Hk2 Hk3 Hf Hm Hi.
+    destruct (ok_implies_pp_state e Hrow Hadd Hdis Hres Hk Hk2 Hk3) as [H1 H2].
+    rewrite Hf in *. unfold pp_validR, tolSI in *.
+    assert (Ha : e "x.moles" > 0 -> - (1 / 1000000) <= target - si <= 1 / 1000000).
+    { intro Hp. specialize (H1 Hp). revert H1. unfold Rabs. destruct (Rcase_abs _); lra. }
+    repeat split; lra.
+  Qed.
 End Tie.
